@@ -7,6 +7,6 @@ def build(reg):
     return {
         "verify": specs,
         "lemmas": [],
-        "trusted": ["issubclass / __bases__ / typing introspection are CPython's"],
+        "trusted": ["issubclass / __bases__ / typing introspection are CPython's", "get_type_hints(cls) has an entry for every own annotation of cls"] + schema_core.T_SUBTYPE,
         "assumptions": ["check_allowed_types / check_overrides / is_subtype (runtype-, typing-based) are call-logging stubs here; their behaviour is checked bounded"],
     }
